@@ -40,7 +40,11 @@ SYM_ID = {s.name: i for i, s in enumerate(SYMS)}
 FMTS = ["xyz", "uvw", "hkl", "UVTW", "hkil"]
 PHASES = [None,
           Phase(name="cub", point_group="m-3m", structure=Structure(lattice=Lattice(3, 3, 3, 90, 90, 90))),
-          Phase(name="hex", point_group="6/mmm", structure=Structure(lattice=Lattice(3.2, 3.2, 5.1, 90, 90, 120)))]
+          Phase(name="hex", point_group="6/mmm", structure=Structure(lattice=Lattice(3.2, 3.2, 5.1, 90, 90, 120))),
+          # ids 3, 4: only used by the Miller metadata stratum (pick_meta draws from the first N_MAIN_PHASES)
+          Phase(name="sg225", space_group=225, structure=Structure(lattice=Lattice(4, 4, 4, 90, 90, 90))),
+          Phase(name="pgonly", point_group="4/mmm")]
+N_MAIN_PHASES = 3
 
 SHAPES = {
     "1d": [(1,), (2,), (3,), (5,), (7,)],
@@ -65,6 +69,10 @@ def fail(sig, what, rep):
 
 
 # ------------------------------------------------------------------ objects
+def sg_number(ph):
+    return None if ph.space_group is None else int(ph.space_group.number)
+
+
 def phase_id(ph):
     if ph is None:
         return 0
@@ -72,7 +80,8 @@ def phase_id(ph):
         if q is None:
             continue
         try:
-            if (ph.point_group.name == q.point_group.name and
+            if (ph.point_group.name == q.point_group.name and ph.name == q.name and
+                    sg_number(ph) == sg_number(q) and
                     np.allclose(ph.structure.lattice.abcABG(), q.structure.lattice.abcABG())):
                 return i
         except Exception:
@@ -145,11 +154,13 @@ def build(cname, shape, flagmode, meta, kind):
     return o
 
 
-def rebuild(s):
-    """object from a snapshot (replay)"""
+def rebuild(s, dtype=None):
+    """object from a snapshot (replay); dtype: the dtype the data array is handed over with"""
     cls = CLASSES[s["cls"]]
     shape = tuple(s["shape"])
     d = np.array(s["data"], float).reshape(shape + (cls.dim,))
+    if dtype:
+        d = d.astype(np.dtype(dtype))
     m = s["meta"]
     if s["cls"] == "Miller":
         o = Miller(xyz=d, phase=PHASES[m[2]])
@@ -166,7 +177,34 @@ def rebuild(s):
 
 
 # --------------------------------------------------------------------- keys
+def adv_item(it):
+    """one element of an 'adv' key descriptor (JSON) -> the Python index object"""
+    t = it[0]
+    if t == "e":
+        return Ellipsis
+    if t == "n":
+        return None
+    if t == "i":
+        return int(it[1])
+    if t == "I":
+        return np.int64(it[1])
+    if t == "s":
+        return slice(it[1], it[2], it[3])
+    if t == "l":
+        return [int(i) for i in it[1]]
+    if t == "a":
+        return np.array(it[1], dtype=np.int64)
+    if t == "b":
+        return [bool(b) for b in it[1]]
+    if t == "m":
+        return np.array(it[1], dtype=bool)
+    raise ValueError(it)
+
+
 def py_key(k):
+    if k["t"] == "adv":
+        items = [adv_item(it) for it in k["items"]]
+        return items[0] if k.get("bare") else tuple(items)
     if k["t"] == "basic":
         items = []
         for it in k["items"]:
@@ -323,6 +361,20 @@ def ref_step(cname, op, s):
     idx = np.arange(n).reshape(shape)
     meta = list(s["meta"])
     k = op["op"]
+    if k == "invm":
+        k = "inv"
+    if k == "stackwith":
+        parts = []
+        for x in op["others"]:
+            nx = len(x["flags"])
+            parts.append((np.array(x["data"], float).reshape(nx, -1) if nx else np.zeros((0, data.shape[1])),
+                          np.array(x["flags"], bool).reshape(nx)))
+        parts.insert(op["pos"], (data, flags))
+        if any(len(p[1]) != n for p in parts):
+            raise Expect()
+        d2 = np.stack([p[0] for p in parts], axis=1).reshape(n * len(parts), -1)
+        f2 = np.stack([p[1] for p in parts], axis=1).reshape(n * len(parts))
+        return shape + (len(parts),), d2, f2, None
     if k in ("unit", "inv", "neg"):
         d2, f2 = ref_eop(cname, k, data, flags)
         if k == "inv" and cname == "Misorientation":
@@ -394,6 +446,19 @@ def apply_op(o, op):
         return o.squeeze()
     if k == "stack":
         return type(o).stack([apply_eop(o, e) for e in op["vs"]])
+    if k == "invm":
+        return o.inv()
+    if k == "stackwith":
+        # stack with independent objects (own data, own flags); none of them may change
+        others = [rebuild(x) for x in op["others"]]
+        sb = [snap(x) for x in others]
+        seq = list(others)
+        seq.insert(op["pos"], o)
+        res = type(o).stack(tuple(seq) if op["seq"] == "tuple" else seq)
+        if any(not same_snap(a, snap(x)) for a, x in zip(sb, others)):
+            fail(f"{type(o).__name__}.stack-indep:operand-mutated",
+                 f"{type(o).__name__}.stack changes one of the stacked objects", {"cls": type(o).__name__, "op": op})
+        return res
     return apply_eop(o, k)
 
 
@@ -463,16 +528,24 @@ def read_all_properties(o, origin, s_origin, rep):
 
 
 def opname(op):
-    return {"get": "getitem"}.get(op["op"], op["op"])
+    if op["op"] == "get" and op["key"].get("t") == "adv":
+        return "getitem-component-axis" if op["key"].get("grp") == "comp" else "getitem-adv"
+    return {"get": "getitem", "invm": "inv-method", "stackwith": "stack-indep"}.get(op["op"], op["op"])
 
 
-def run_case(cname, x0, prog, tag, props=True):
-    """execute on the implementation, record outcomes, run the oracle"""
+def is_ext(op):
+    """operations the Coq model has no constructor for (oracle only)"""
+    return op["op"] in ("invm", "stackwith") or (op["op"] == "get" and op["key"].get("t") == "adv")
+
+
+def run_case(cname, x0, prog, tag, props=True, record=True, extra=None):
+    """execute on the implementation, record outcomes, run the oracle
+    (record=False: oracle only, the case is not handed to the Coq correspondence)"""
     s0 = snap(x0)
     origin_snap = copy.deepcopy(s0)
     steps = []
     cur = x0
-    rep_base = {"cls": cname, "init": s0, "prog": prog}
+    rep_base = dict({"cls": cname, "init": s0, "prog": prog}, **(extra or {}))
     for i, op in enumerate(prog):
         before = snap(cur)
         rep = dict(rep_base, step=i)
@@ -528,12 +601,13 @@ def run_case(cname, x0, prog, tag, props=True):
             if not (cname not in QUAT and op["op"] in ("inv",)):
                 fail(f"{cname}.{opname(op)}:no-raise", f"{cname}.{opname(op)} accepts an argument numpy rejects on an index array", rep)
         elif exp is not None:
-            compare(cname, opname(op), exp, got, before, rep, check_meta=op["op"] != "stack")
+            compare(cname, opname(op), exp, got, before, rep, check_meta=op["op"] not in ("stack", "stackwith"))
         cur = res
     # read every public property of the final object; neither it nor the initial object may change
     if props:
         read_all_properties(cur, x0, origin_snap, dict(rep_base, step=len(steps)))
-    cases.append({"k": "prog", "cls": cname, "init": s0, "steps": steps, "tag": tag})
+    if record:
+        cases.append({"k": "prog", "cls": cname, "init": s0, "steps": steps, "tag": tag})
 
 
 def azimuth_case(cname, shape, meta):
@@ -557,7 +631,7 @@ def pick_meta(cname):
     if cname == "Orientation":
         return [0, R.randrange(len(SYMS)), 0, 0]
     if cname == "Miller":
-        ph = R.randrange(len(PHASES))
+        ph = R.randrange(N_MAIN_PHASES)
         return [0, 0, ph, 0 if ph == 0 else R.randrange(len(FMTS))]
     return [0, 0, 0, 0]
 
@@ -574,8 +648,10 @@ def weighted(ws):
 
 if ONLY is not None:
     for c in ONLY:
-        x0 = rebuild(c["init"])
-        run_case(c["cls"], x0, c["prog"], "replay")
+        x0 = rebuild(c["init"], c.get("dtype"))
+        ext = any(is_ext(o) for o in c["prog"])
+        run_case(c["cls"], x0, c["prog"], "replay", record=not ext and not c.get("dtype"),
+                 extra={"dtype": c["dtype"]} if c.get("dtype") else None)
 elif EXH is not None:
     for cname in CLASSES:
         for shape in [(3,), (2, 2), (1, 3), (2, 1, 2), (0, 2), (2, 3, 2, 2)]:
